@@ -20,7 +20,7 @@ ASSUMPTIONS = ["payload types are int and void; the exception payload is created
                "libstdc++ (g++ 12) std::deque layout: 512-byte nodes, initial map of 8"]
 TRUSTED_EXTRA = ["replaced global operator new/delete with a 16-byte size/tag header (harness/seq_alloc.cpp)"]
 
-NF, NM, NG, NS, NH, NC = 8, 4, 4, 4, 6, 32
+NF, NM, NG, NS, NH, NC, NK = 8, 4, 4, 4, 6, 32, 4
 ENGINES = ("al0h", "al1h", "al0s", "al1s")
 
 
@@ -39,6 +39,7 @@ class Sim:
         self.hbusy = [False] * NH
         self.cbusy = [False] * NC
         self.enq = 0
+        self.cfp = [False] * NK
         self.wid = 0
         self.frames = 0
 
@@ -99,7 +100,7 @@ def gen_random(rng, engine, name, nops, aim_pre):
             dead = [f for f in range(NF) if S.fst[f] == 0]
             if dead:
                 f = rng.choice(dead)
-                ops.append([1, f, rng.choice([0, 0, 1, 2, 3])]); S.fst[f] = 1
+                ops.append([1, f, rng.choice([0, 0, 1, 2, 3, 4, 5])]); S.fst[f] = 1
                 if rng.random() < 0.9:
                     ops.append([2, f]); S.fst[f] = 2
                     if rng.random() < 0.2: ops.append([8, f])
@@ -215,6 +216,14 @@ def gen_random(rng, engine, name, nops, aim_pre):
             else:
                 ops.append([22, g]); S.gens[g] = None
             continue
+        if r < 0.955:
+            k = rng.randrange(NK)
+            if S.cfp[k]:
+                ops.append([41, k, rng.choice([0, 0, 1, 2]), rng.randrange(1, 500)]); S.cfp[k] = False
+            else:
+                mode = rng.choice([0, 0, 1, 2, 3, 3])
+                ops.append([40, k, mode, rng.randrange(1, 500), rng.choice([0, 0, 1, 2, 5])]); S.cfp[k] = mode == 3
+            continue
         if r < 0.97:
             s = rng.randrange(NS)
             how = 1 if (coro and rng.random() < 0.5) else 0
@@ -227,7 +236,7 @@ def gen_random(rng, engine, name, nops, aim_pre):
         else:
             ops.append([rng.choice([31, 99])])    # rejected in normal mode / unknown opcode
     if rng.random() < 0.1:
-        ops.insert(rng.randrange(len(ops) + 1), rng.choice([[6, 9, 0, 0, 0, 1], [3, 0], [14, 0, 5, 0], [4, 0, 7], [1, 0, 4], [21, 3, 7, 0], [21, 0, 6, 1], [6, 0, 0, 13, 0, 1], [8, 9], [20, 0, 1]]))
+        ops.insert(rng.randrange(len(ops) + 1), rng.choice([[6, 9, 0, 0, 0, 1], [3, 0], [14, 0, 5, 0], [4, 0, 7], [1, 0, 4], [21, 3, 7, 0], [21, 0, 6, 1], [6, 0, 0, 13, 0, 1], [8, 9], [20, 0, 1], [40, 0, 4, 1, 0], [40, 4, 0, 1, 0], [41, 0, 0, 1], [40, 0, 0, 1, 6], [1, 0, 6]]))
     return Case(engine, name, ops)
 
 
@@ -330,13 +339,22 @@ def gen(seed, tier):
         for k in range(1, 6):
             for kind in (0, 1, 2, 3):
                 how = 0 if kind == 3 else (k % 3 if coro else (k % 2) * 2)
-                add(waiters_case(eng, "", k % NF, k if kind != 1 else 3, k, k, kind, how, ty=(k + kind) % 4))
-            add(waiters_case(eng, "", k, k, k % 3, k % 2, 4, 0, ty=k % 4))      # move-assignment of an empty promise
+                add(waiters_case(eng, "", k % NF, k if kind != 1 else 3, k, k, kind, how, ty=(k + kind) % 6))
+            add(waiters_case(eng, "", k, k, k % 3, k % 2, 4, 0, ty=k % 6))      # move-assignment of an empty promise
+        # every value type x every resolution kind, with and without waiters (bulky values: 264 and 1024 bytes)
+        for ty in range(6):
+            for kind in (0, 1, 2, 3, 4):
+                add(waiters_case(eng, "", ty, 0, 0, 0, kind, 0, ty=ty)); add(waiters_case(eng, "", ty, 1, 1, 1, kind, 0, ty=ty))
+        # call_fn_future_awaiter: operation completed synchronously (value / exception / no value), pending then resolved,
+        # and the handler re-arming itself 0..5 times
+        for r_ in (0, 1, 2, 5):
+            add(Case(eng, "", [[40, 0, 0, 10, r_], [40, 0, 1, 0, r_], [40, 0, 2, 0, r_], [40, 1, 3, 0, r_], [40, 0, 0, 20, 0], [41, 1, 0, 30],
+                               [40, 1, 3, 0, r_], [41, 1, 1, 0], [40, 2, 3, 0, r_], [41, 2, 2, 0], [40, 2, 0, 40, r_]]))
         add(waiters_case(eng, "", 1, 3, 5, 5, 0, 0)); add(waiters_case(eng, "", 1, 0, 5, 0, 1, 0)); add(waiters_case(eng, "", 1, 0, 0, 5, 2, 0, ty=1))
         # resolution inside coro_queue::create_suspend_point
         for nco in (0, 1, 2, 3, 4, 6, 7, 13):
             for how in ((10, 11, 12) if coro else (10, 12)):
-                add(waiters_case(eng, "", 2, nco, nco % 2, nco % 3, nco % 3, how, ty=nco % 4))
+                add(waiters_case(eng, "", 2, nco, nco % 2, nco % 3, nco % 3, how, ty=nco % 6))
         if coro:
             # coroutines whose start goes through the ready queue
             for nco in (1, 2, 3, 4, 5):
@@ -450,11 +468,18 @@ def gen_xcell(seed, tier):
     quota = 150 if tier == "quick" else 1500
     out = []
     for focus in ("waiters", "resolvers"):
-        # only the thread kinds whose frame cost the C20 cross-check model knows (resolver kinds 0..5, waiter kinds 0..4);
-        # kinds added to the Cell component later (unwinding destruction 1 6, co_await-promise resolver 1 7, call_fn waiter 2 5)
-        # are skipped here until the cost model carries them
+        # WHITELIST: only scenarios built entirely from thread kinds whose cost the C20 cross-check model carries
+        # (AllocDefs.cell_allocs: resolver kinds 0..7, waiter kinds 0..5, schedule line); anything else is skipped
         def known(c):
-            return all(not (o and ((o[0] == 1 and len(o) > 1 and o[1] >= 6) or (o[0] == 2 and len(o) > 1 and o[1] >= 5))) for o in c.ops)
+            for o in c.ops:
+                if not o: continue
+                if o[0] == 1 and len(o) == 3 and 0 <= o[1] <= 7: continue
+                if o[0] == 2 and len(o) == 2 and 0 <= o[1] <= 5: continue
+                if o[0] == 9: continue
+                return False
+            # at most three coroutine waiters: more can put a 4th handle into the resolver's suspend point (a documented
+            # allocation whose occurrence depends on the schedule: that is C20's sequential part, not this cross-check)
+            return sum(1 for o in c.ops if len(o) == 2 and o[0] == 2 and o[1] in (0, 4)) <= 3
         cs = [c for c in cellcommon.gen(seed, "quick" if tier == "quick" else "thorough", focus) if c.engine in m and known(c)]
         for c in cs[:quota]:
             out.append(Case(m[c.engine], "x" + focus[0] + c.name, c.ops))
@@ -464,6 +489,17 @@ def gen_xcell(seed, tier):
 def gen_xmutex(seed, tier):
     from props import mutexcommon
     cs = mutexcommon.gen(seed, "quick" if tier == "quick" else "thorough", "mutex")
+    # WHITELIST as in gen_xcell: contender declarations `1 kind (acq rel)*` with the kinds / styles AllocDefs.mutex_decl_allocs
+    # knows, and schedule lines; a malformed declaration is ignored by that harness and costs nothing in the model
+    def known(c):
+        for o in c.ops:
+            if not o: continue
+            if o[0] == 9: continue
+            if o[0] == 1 and len(o) >= 2 and o[1] in (0, 1) and all(0 <= a <= 1 for a in o[2::2]) and all(0 <= r <= 2 for r in o[3::2]): continue
+            if o[0] == 1 and (len(o) < 2 or (len(o) - 2) % 2): continue      # rejected by parse_decl: no thread at all
+            return False
+        return True
+    cs = [c for c in cs if c.engine == "mx" and known(c)]
     return [Case("alxm", "xm" + c.name, c.ops) for c in cs[:(200 if tier == "quick" else 2000)]]
 
 
